@@ -97,6 +97,34 @@ self.fmmu_used = havoc_others(self.fmmu_used, own)
 )
 
 
+def map_fmmu_fixed(n):
+    """the same contract for a table of exactly n slots (a concrete instance of
+    the symbolic proof: search code the symbolic run cannot follow - generator
+    expressions, max/min over the slots - is executed slot by slot)"""
+    term = T.Obj(Terminal, position=T.Range(0, 65535), ec=T.Obj(EtherCat),
+                 fmmu_used=T.FixedList(T.Opt(T.Range(0, 2**32 - 1)), n),
+                 pdo_out_off=T.Range(0, 65535), pdo_out_sz=T.Range(0, 65535),
+                 pdo_in_off=T.Range(0, 65535), pdo_in_sz=T.Range(0, 65535),
+                 g_regs=T.List(T.Int))
+    return Contract(
+        Terminal.map_fmmu, name=f"Terminal.map_fmmu<table of {n} slots>",
+        params=dict(self=term, logical=T.Range(0, 2**32 - 1), write=T.Bool),
+        raises=[Raises(ValueError), Raises(EtherCatError)],
+        cm=dict(
+            enter={
+                "index_in_table": "0 <= result and result < len(self.fmmu_used)",
+                "slot_was_free": "old.self.fmmu_used[result] is None",
+                "slot_marked": "self.fmmu_used[result] == logical",
+                "others_kept": "all(implies(j != result, self.fmmu_used[j] is old.self.fmmu_used[j] or "
+                               "self.fmmu_used[j] == old.self.fmmu_used[j]) for j in range(len(self.fmmu_used)))",
+            },
+            exit={"own_slot_freed": "self.fmmu_used[result] is None"},
+            exit_modes=("normal", "exception"),
+        ),
+        modifies=None,
+        options={"inline": {"ebpfcat.ethercat:Terminal.write"}})
+
+
 def map_fmmu_interleaved():
     """the same function with the other mappings of the terminal running at
     every await (the bus writes): what this mapping stores into the table"""
